@@ -81,6 +81,13 @@ pub fn scenarios(st: &mut Stats) -> Vec<Scn> {
         v.push((ty, "YY-MM-DD", "+0007-12-31", Given { year: year(7, 4, 2), month: Some(12), day: Some(31), ..g() }, true));
         v.push((ty, "MM-DD DDD", "02-29 060", Given { month: Some(2), day: Some(29), doy: Some(60), ..g() }, false));
         v.push((ty, "DDD", "59", Given { doy: Some(59), ..g() }, false));
+        // year + day-of-year determine the date; a day of month next to them must merely agree (no month field: none may leak in from the clock)
+        v.push((ty, "YYYY DD DDD", "2021 10 100", Given { year: year(2021, 4, 4), day: Some(10), doy: Some(100), ..g() }, true));
+        v.push((ty, "DDD/DD/YYYY", "091/31/2024", Given { year: year(2024, 4, 4), day: Some(31), doy: Some(91), ..g() }, true));
+        v.push((ty, "YYYY DD DDD", "2023 29 029", Given { year: year(2023, 4, 4), day: Some(29), doy: Some(29), ..g() }, true));
+        v.push((ty, "DD DDD", "10 100", Given { day: Some(10), doy: Some(100), ..g() }, false));
+        v.push((ty, "DD DDD", "31 305", Given { day: Some(31), doy: Some(305), ..g() }, false));
+        v.push((ty, "DDDDD", "06001", Given { day: Some(1), doy: Some(60), ..g() }, false));
         v.push((ty, "DDD", "61", Given { doy: Some(61), ..g() }, false));
     }
     for ty in [Ty::Ts, Ty::Ora] {
@@ -239,6 +246,51 @@ pub fn check(st: &mut Stats, c: &K) {
     verif_hooks::clear_clock();
 }
 
+/// The clock inside a leap second (chrono: second 59 with 1,000,000..1,999,999 microseconds).
+pub struct Leap {
+    pub day: i32,
+    pub us: u32,
+}
+impl Case for Leap {
+    fn to_json(&self) -> Value {
+        json!({"kind": "now-in-leap-second", "clock_day": self.day, "leap_us": self.us})
+    }
+}
+pub fn check_leap(st: &mut Stats, c: &Leap) {
+    let (y, m, d) = cal().of(c.day);
+    if !verif_hooks::set_clock(y, m, d, 23, 59, 59, 1_000_000 + c.us) {
+        st.skipped += 1;
+        return;
+    }
+    // the date of the leap second is unambiguous
+    st.op(Op::D_now);
+    match Date::now() {
+        Ok(x) => {
+            if x.days() != c.day {
+                st.fail("C18/now/Date/leap-second", format!("clock day {} 23:59:60.{:06} -> Date::now() = {}", c.day, c.us, x.days()));
+            }
+        }
+        Err(e) => st.fail("C18/now/Date/leap-second", format!("clock day {} 23:59:60.{:06} -> {:?}", c.day, c.us, e)),
+    }
+    // SQL timestamps have no second 60: an error or an instant between 23:59:59 and the next midnight are both "the current time"
+    let lo = c.day as i64 * DAY_US + DAY_US - 1_000_000;
+    st.op(Op::TS_now);
+    if let Ok(t) = Timestamp::now() {
+        st.obs(Op::TS_now, &t);
+        if !(lo..=lo + 1_000_000).contains(&t.usecs()) {
+            st.fail("C18/now/Timestamp/leap-second", format!("clock day {} 23:59:60.{:06} -> {}", c.day, c.us, t.usecs()));
+        }
+    }
+    st.op(Op::O_now);
+    if let Ok(t) = OracleDate::now() {
+        st.obs(Op::O_now, &t);
+        if !(lo..=lo + 1_000_000).contains(&t.usecs()) || t.usecs().rem_euclid(1_000_000) != 0 {
+            st.fail("C18/now/OracleDate/leap-second", format!("clock day {} 23:59:60.{:06} -> {}", c.day, c.us, t.usecs()));
+        }
+    }
+    verif_hooks::clear_clock();
+}
+
 pub fn run(ctx: &Ctx, st: &mut Stats) {
     cal();
     let scns = scenarios(st);
@@ -271,6 +323,15 @@ pub fn run(ctx: &Ctx, st: &mut Stats) {
     if ctx.tier == Tier::Thorough {
         st.mark_exhaustive("every current local date x 3 times of day x scenarios", &format!("all 3,652,059 possible current dates x 3 times of day x {} picture/text scenarios (2/3 of them per time of day)", scns.len()));
     }
+    st.stratum("now constructors with the clock inside a leap second", true);
+    let lstep = ctx.tier.pick(400_009, 1009, 11);
+    let mut day = MIN_DAY as i64;
+    while day <= MAX_DAY as i64 - 1 {
+        for us in [0u32, 1, 499_999, 500_000, 999_999] {
+            st.eval(&Leap { day: day as i32, us }, check_leap);
+        }
+        day += lstep;
+    }
     // complete pictures under two very different clocks must agree with each other (no model involved)
     st.stratum("complete pictures under two clocks", true);
     for (k, s) in scns.iter().enumerate().filter(|(_, s)| s.complete) {
@@ -295,6 +356,7 @@ pub fn replay(v: &Value, st: &mut Stats) -> bool {
     let (day, tod) = (ji64(v, "clock_day") as i32, ji64(v, "clock_tod_us"));
     match jstr(v, "kind").as_str() {
         "now" => st.eval(&K { day, tod, scn: None, scn_idx: 0 }, check),
+        "now-in-leap-second" => st.eval(&Leap { day, us: ji64(v, "leap_us") as u32 }, check_leap),
         "parse-under-clock" => {
             // scenarios are identified by (type, picture, text), not by index, so that replays survive edits of the table
             let (ty, pic, text) = (jstr(v, "type"), jstr(v, "picture"), jstr(v, "text"));
